@@ -122,6 +122,7 @@ fn classify(msg: &str) -> (String, u32) {
 }
 
 pub(crate) fn call(reg: &PortableRegistry, id: u32, seed: u64) -> Out {
+    crate::util::inflight(&serde_json::json!({"ids": [id], "seeds": [seed]}));
     match std::panic::catch_unwind(std::panic::AssertUnwindSafe(|| scale_value_from_seed(id, reg, seed))) {
         Ok(Ok(v)) => Out::Ok(v),
         Ok(Err(e)) => {
@@ -591,6 +592,7 @@ impl<'a> Gen<'a> {
     /// one case per chunk of ids; every chunk carries all seeds
     fn push_registry(&mut self, stream: &str, name: &str, rj: &J, ids: &[u32], seeds: &[u64], chunk: usize, print_registry_json: bool) {
         let reg = reggen::to_registry(rj);
+        crate::util::inflight_ctx(&serde_json::json!({"registry": rj}));
         let rcoq = regprint::registry(&reg);
         for ch in ids.chunks(chunk.max(1)) {
             let mut budget: isize = 3000;
